@@ -236,14 +236,35 @@ class ReferenceT(runs.Reference):
         return self._thermal_log
 
 
+def long_samples(ctx, with_model=True):
+    """longer runs outside the exhaustive bound ("and longer samples"): more than ten frames, two-digit frame indices"""
+    first = None
+    for cfg in configs(True)[:2]:  # fixed and adaptive-with-retries
+        dev, kw = build(cfg, ctx.rng)
+        sched = cfg["name"].startswith("adaptive")
+        pairs = [(1, 12), (2, 25), (3, 41)] if ctx.quick else [(1, 12), (1, 30), (2, 25), (3, 41), (7, 100), (4, 64)]
+        Nref = max(N for _, N in pairs)
+        ref = ReferenceT(dev, runs.options(save_every=1000, solve_time=1e9, **cfg["opts"]), Nref + 1, sched=sched, **kw)
+        for k, N in pairs:
+            with ScheduledRefusals(sched):
+                f = check_run(ctx, cfg, dev, kw, ref, k, N, (ref.times[N - 1] + ref.times[N]) / 2, with_model=with_model)
+            ctx.count("long_samples")
+            first = first or f
+    return first
+
+
 def run(ctx):
     Nmax = 6 if ctx.quick else 12
     for cfg in configs(ctx.quick):
         run_config(ctx, cfg, Nmax)
+    long_samples(ctx)
     ctx.extra["bound"] = dict(Nmax=Nmax, k="1..N+2")
 
 
 def search(ctx):
+    f0 = long_samples(ctx, with_model=False)
+    if f0 is not None:
+        return f0
     for cfg in configs(ctx.quick):
         f = run_config(ctx, cfg, 4, with_model=False, stop_at_first=True)
         if f is not None:
